@@ -196,3 +196,16 @@ PROPS["C07"] = dict(
     design_ref="§6 C07",
     scope="generated statements over a fixed schema; theorem part: all Safe renderings",
 )
+
+from stages import stage_c09
+PROPS["C09"] = dict(
+    groups=["token", "escape", "quote"],
+    lean_props=["SeaQ.Props.C09"],
+    lean_obligations=[],
+    extra=[stage_c09],
+    technique="Lean 4 proofs that the backend-specific emulations are equivalent to the native forms over SQL value semantics (MySQL's `x IS NULL ASC|DESC, x` two-key ordering = NULLS LAST | FIRST for either default NULL placement and either direction; IFNULL = COALESCE on two arguments; GREATEST / LEAST = multi-argument MAX / MIN, both NULL-propagating) and that the statement model writes exactly these forms and names; the model is tied to the crate by differential runs on all three backends; sameness of the three renderings is decided by execution: each portable statement's MySQL and Postgres renderings are transliterated lexically (literals decoded by the source dialect's rules) and executed on SQLite next to the SQLite rendering and an explicit reference",
+    level_text="Partial by nature: 'return identical results' is engine behaviour. Proved: emulation equivalences and the emitted forms. Validated by execution: pairwise agreement of the six texts (3 backends x inline / parameterised) with the reference on generated portable statements. Postgres' NULL-ignoring GREATEST / LEAST and the engines' different default NULL placement are engine differences outside the claim.",
+    level_note=_STMT_MODEL_NOTE + " The transliterator (harness/src/c09.rs over the reference lexers) and the explicit reference renderer are trusted for the engine stage; only SQLite is available, so MySQL / Postgres semantics enter through their lexical rules and the documented substitutions only.",
+    design_ref="§6 C09",
+    scope="generated portable statements; theorem part: all key values / argument lists",
+)
